@@ -18,7 +18,7 @@ from ..extract import Extractor
 from ..flow import MustFlow
 from ..model import Program, walk_own, dotted
 from ..report import AnalysisError
-from ..model import canon as K
+from ..model import canon as K, as_less
 
 MESH = "hypnotoad/core/mesh.py"
 TOK = "hypnotoad/cases/tokamak.py"
@@ -273,12 +273,15 @@ def r4(prog, rep):
                 kind = None
                 for st in body:
                     if isinstance(st, ast.If):
-                        t = T(mod, st.test)
                         take = None
-                        if t.endswith(var + ">=0"):
-                            take = sign == "nonneg" if "and" not in t else None
-                            if "and" in t:
-                                continue  # adjusts the *other* end's index
+
+                        def nonneg(tn):
+                            less = as_less(tn)
+                            return bool(less) and not less[1] and isinstance(less[0], ast.Constant) and less[0].value == 0 and mod.code(less[2]) == var
+                        if isinstance(st.test, ast.BoolOp) and any(nonneg(v) for v in st.test.values):
+                            continue  # adjusts the *other* end's index
+                        if nonneg(st.test):
+                            take = sign == "nonneg"
                         if take:
                             for s2 in st.body:
                                 ex.stmt(s2, env)
